@@ -170,9 +170,13 @@ static scpi_result_t my_control(scpi_t * context, scpi_ctrl_name_t ctrl, scpi_re
     { static unsigned turn; static const scpi_result_t answers[4] = { SCPI_RES_OK, SCPI_RES_ERR, SCPI_RES_OK, (scpi_result_t) 0 }; return answers[turn++ & 3]; }
 }
 
+/* the error callback is optional for the application (the library tests it for NULL everywhere); nothing in the statement
+ * depends on its presence, so part of the cases run without it */
+static int g_no_error_cb;
 static vh_ctx_t * new_ctx(int qcap) {
     vh_ctx_t * v = vh_ctx_new(status_cmds, 64, qcap, 0);
     v->iface.control = my_control;
+    if (g_no_error_cb) { v->iface.error = NULL; vh_count("contexts.without_error_callback", 1); } else vh_count("contexts.with_error_callback", 1);
     v->log_enabled = 0;
     return v;
 }
@@ -615,6 +619,7 @@ static void bfs_run(uint64_t idx, vh_rng_t * rng) {
     vh_case_desc("bfs slice %s", s->name);
     vh_watchdog(s->big ? 7000 : 1200);
     build_ops(s);
+    g_no_error_cb = (idx % 3 == 1);
     v = new_ctx(s->qcap);
     qbytes = sizeof(scpi_error_t) * (size_t) s->qcap;
     snapsz = sizeof(scpi_t) + qbytes;
@@ -739,7 +744,7 @@ static void rnd_op(vh_rng_t * rng, op_t * op) {
 #define RING 8
 static void walk_run(uint64_t idx, vh_rng_t * rng) {
     int qcap = 1 + (int) vh_below(rng, 4), step, f;
-    vh_ctx_t * v = new_ctx(qcap);
+    vh_ctx_t * v = (g_no_error_cb = (idx % 4 == 3), new_ctx(qcap));
     op_t ring[RING]; obs_t b, a;
     vh_case_desc("random walk of %d operations, queue capacity %d", WALK_STEPS, qcap);
     observe(v->ctx, &a);
@@ -783,7 +788,7 @@ static void walk_run(uint64_t idx, vh_rng_t * rng) {
 #define SWEEP_BLOCK 256
 static uint64_t sweep_count(int thorough) { (void) thorough; return MON12 ? 65536 / SWEEP_BLOCK : 0; }
 static void sweep_run(uint64_t idx, vh_rng_t * rng) {
-    vh_ctx_t * v = new_ctx(2);
+    vh_ctx_t * v = (g_no_error_cb = (int) (idx & 1), new_ctx(2));
     scpi_t * base = (scpi_t *) malloc(sizeof(scpi_t));
     size_t qbytes = sizeof(scpi_error_t) * 2;
     void * qbase = malloc(qbytes);
@@ -839,7 +844,7 @@ static void cascade_run(uint64_t idx, vh_rng_t * rng) {
     static const scpi_reg_name_t writable[] = { USER_REG_QUES_VOLT, USER_REG_QUES_VOLTE, USER_REG_QUES_VOLTC, USER_REG_OPER_SUB, USER_REG_OPER_SUBE,
         SCPI_REG_QUESE, SCPI_REG_OPERE, SCPI_REG_SRE, SCPI_REG_QUES, SCPI_REG_OPER, SCPI_REG_ESE };
     static const char * const wname[] = { "QUES:VOLT", "QUES:VOLT:ENAB", "QUES:VOLT:COND", "OPER:SUB", "OPER:SUB:ENAB", "QUESE", "OPERE", "SRE", "QUES", "OPER", "ESE" };
-    vh_ctx_t * v = new_ctx(2); scpi_t * c = v->ctx; int step; vh_buf_t hist = { 0, 0, 0 };
+    vh_ctx_t * v = (g_no_error_cb = (idx % 4 == 1), new_ctx(2)); scpi_t * c = v->ctx; int step; vh_buf_t hist = { 0, 0, 0 };
     (void) idx;
     for (step = 0; step < 120; step++) {
         int k = (int) vh_below(rng, 11); scpi_reg_val_t val = (scpi_reg_val_t) (vh_chance(rng, 1, 2) ? (1u << vh_below(rng, 16)) | (vh_below(rng, 2) ? 0x0001 : 0) | (vh_below(rng, 2) ? 0x0200 : 0) : vh_rand(rng));
@@ -883,7 +888,7 @@ int main(int argc, char ** argv) {
         { "walk", walk_count, walk_run },
         { "cascade", cascade_count, cascade_run },
     };
-    vh_require("bfs.states");
+    vh_require("bfs.states"); vh_require("contexts.without_error_callback"); vh_require("contexts.with_error_callback");
     vh_require("walk.steps");
 #if MON11
     vh_require("c11.after_states_with_bit5_set");
